@@ -159,6 +159,27 @@ def rule_r3(prog, res) -> None:
         call = next(c for n in chk for c in n.calls() if any(t.name == "check_patch_conistency" for t in prog.resolve_call(fc, c).funcs()))
         covers = len(call.args) >= 2 and any(isinstance(a, ast.Starred) for a in call.args)
         if covers:
+            from .c01 import _coverage
+
+            first = [p for p in fc.param_names() if p.startswith("catalog")][0]
+            rest = fc.node.args.vararg.arg
+            cov = set()
+            for a in call.args:
+                if isinstance(a, ast.Starred) and isinstance(a.value, ast.Name):
+                    if a.value.id == rest:
+                        cov.add("rest")
+                    else:
+                        # a starred local: what does a loop over it cover?
+                        probe = ast.For(target=ast.Name(id="__x", ctx=ast.Store()), iter=a.value, body=[], orelse=[])
+                        for x in walk_no_nested(fc.node):
+                            if isinstance(x, ast.Assign) and isinstance(x.targets[0], (ast.Tuple, ast.List)):
+                                for t in x.targets[0].elts:
+                                    if isinstance(t, ast.Starred) and isinstance(t.value, ast.Name) and t.value.id == a.value.id:
+                                        cov.add("others")
+                elif isinstance(a, ast.Name):
+                    cov |= _coverage(fc, a, first, rest)
+            covers = {"first", "rest"} <= cov or {"one", "others"} <= cov
+        if covers:
             res.ok("C12.R3", res.site(fc, "alignment"), "centre alignment of all catalogs is checked before links are computed")
         else:
             res.violation("C12.R3", fc, call, "the alignment check does not receive all catalogs", key_extra="alignment-args")
